@@ -434,6 +434,28 @@ def event_strs(p):
     return out
 
 
+class _ImpliedIsNot(str):
+    """pseudo atom `x isnot <anything but V>`: matches a row regex `^x isnot W$` when W != V (and W is not a list containing V)"""
+    def __new__(cls, prefix, variant):
+        o = str.__new__(cls, prefix + "\u2260" + variant)
+        o.prefix, o.variant = prefix, variant
+        return o
+
+
+_re_search = re.search
+
+
+def _atom_search(rx, a):
+    if isinstance(a, _ImpliedIsNot):
+        # try every variant name mentioned literally in the row regex as the excluded one
+        for m in re.finditer(r"isnot \(?([A-Za-z_|]+)\)?\$?", rx):
+            names = [n for n in m.group(1).split("|") if n]
+            if names and a.variant not in names and _re_search(rx, a.prefix + "|".join(names)):
+                return True
+        return False
+    return _re_search(rx, a)
+
+
 def match_table(ctx, rid, fn, paths, rows, what, ignore_panics=True, extra_ok=None):
     """Decision-table equality: every (non-panic) path of `fn` must match exactly one
     expected row, every expected row must be matched by at least one path.
@@ -445,13 +467,21 @@ def match_table(ctx, rid, fn, paths, rows, what, ignore_panics=True, extra_ok=No
         if ignore_panics and p.leaf[0] in ("panic", "unwind", "unreachable"):
             continue
         atoms, leaf = path_sig(p)
+        # `x is V` implies `x isnot W` for every other variant W: a wildcard arm and an exhaustive match over the other variants
+        # are the same decision, so an explicit arm satisfies a row written against the wildcard (`... isnot W`)
+        implied = []
+        for a in p.atoms:
+            if a[0] == "is" and a[2] not in ("Ok", "Some", "Err", "None"):
+                implied.append(("%s isnot " % canon(a[1]), a[2]))
+        if implied:
+            atoms = tuple(atoms) + tuple(_ImpliedIsNot(pre, v) for pre, v in implied)
         evs = event_strs(p)
         hits = []
         for r in rows:
             if not re.search(r["leaf"], leaf):
                 continue
-            if all(any(re.search(rx, a) for a in atoms) for rx in r.get("atoms", [])) and \
-               not any(any(re.search(rx, a) for a in atoms) for rx in r.get("not_atoms", [])) and \
+            if all(any(_atom_search(rx, a) for a in atoms) for rx in r.get("atoms", [])) and \
+               not any(any(_atom_search(rx, a) for a in atoms) for rx in r.get("not_atoms", [])) and \
                all(any(re.search(rx, a) for a in evs) for rx in r.get("events", [])) and \
                not any(any(re.search(rx, a) for a in evs) for rx in r.get("not_events", [])):
                 hits.append(r["name"])
@@ -461,13 +491,14 @@ def match_table(ctx, rid, fn, paths, rows, what, ignore_panics=True, extra_ok=No
             if extra_ok and extra_ok(atoms, leaf):
                 continue
             ok = False
-            ctx.violation(rid, "%s|unexpected-row|%s => %s" % (what, " & ".join(atoms)[-300:], leaf[-200:]),
-                          "%s: path not in the reference table: IF %s THEN %s" % (what, " & ".join(atoms), leaf),
+            shown = [a for a in atoms if not isinstance(a, _ImpliedIsNot)]
+            ctx.violation(rid, "%s|unexpected-row|%s => %s" % (what, " & ".join(shown)[-300:], leaf[-200:]),
+                          "%s: path not in the reference table: IF %s THEN %s" % (what, " & ".join(shown), leaf),
                           where(fn))
         else:
             ok = False
             ctx.violation(rid, "%s|ambiguous-row|%s" % (what, ",".join(hits)),
-                          "%s: path matches several reference rows %s: IF %s THEN %s" % (what, hits, " & ".join(atoms), leaf),
+                          "%s: path matches several reference rows %s: IF %s THEN %s" % (what, hits, " & ".join(a for a in atoms if not isinstance(a, _ImpliedIsNot)), leaf),
                           where(fn))
     for name, n in used.items():
         if n == 0:
